@@ -66,6 +66,7 @@ func init() {
 		stale := run.Rule("STALE-copy", "a converted copy of an accumulator is never read after the accumulator it was converted from has been modified", 10)
 		shf := run.Rule("SHARED-fresh", "re-initialising an expanded point installs a fresh table (by-value copies and readers of the old one keep a consistent table)", 2)
 		formRule := run.Rule("FORMULA", "the serial point formulas, representation changes, neutral elements and their compositions equal the reference formulas (extended twisted Edwards, a = -1) as terms over uninterpreted field operations, modulo commutativity", 22*len(cfgs))
+		poRule := run.Rule("PAIR-order", "slice-of-slice literals built from a function's own parameters (the static/dynamic scalar and point groups of the Pippenger kernels) list the parameter groups in one order, so the parallel buffers filled from them stay paired", 0)
 		pairRule := run.Rule("DT-pairing", "the expanded Pippenger fallback keeps static scalars paired with the points of the static (expanded) operands and dynamic with dynamic", 3*k)
 		generic := c.Prog("purego")
 		pairSets := map[string]string{}
@@ -92,6 +93,7 @@ func init() {
 			sc := esib.CheckMaskedScan(run, p, "SIB-scan")
 			nconv := checkConversionsReadSource(p, convRule)
 			checkSharedFresh(p, shf)
+			run.Sample(checkPairOrder(p, poRule))
 			run.Sample(checkStaleCopies(p, stale, []string{"curve"}))
 			if id == cfgs[0] {
 				checkSumFolds(run.Rule("DT-sum", "point summation is a left fold of Add over all values that starts from the neutral element and returns the accumulator", 2), &edt.Config{P: p, Mod: modFor(p)})
